@@ -132,7 +132,43 @@ def oracle(ctx):
     return f
 
 
+def stream_after_harvest(ctx, ntables):
+    """the invariant is about the trees a forest holds at any time: harvesting them (what sample() does) must leave them as they were"""
+    import random
+    from syndiffix.bucket import harvest
+    R = ctx.rng
+    S = ctx.stream("O-after-harvest", "random tables (see S-tree), every 1..3-column tree dumped (ranges, tight ranges, stub flags, rows), all trees harvested "
+                   "in increasing and in decreasing dimension order, dumped again: the dumps must be equal and the tight range of every node still the "
+                   "hull of its rows; non-trivial = some tree needed refinement (RNG draws)")
+    for _ in range(ntables):
+        t = TS.gen_table(R, max_rows=120)
+        try:
+            F, kind = TS.build_real(t)
+        except RecursionError:
+            continue
+        combs = list(TS.all_combs(len(t["names"]), 3))
+        before = {c: TS.dump_real(F.get_tree(c)) for c in combs}
+        drew = False
+        for order in (combs, list(reversed(combs))):
+            for c in order:
+                rng = TS.RecRandom(0)
+                try:
+                    harvest(F.get_tree(c), rng)
+                except ZeroDivisionError:
+                    pass
+                drew = drew or bool(rng.log)
+        S.count((repr(t["cols"]), repr(t["pids"]), repr(t["ap"]), repr(t["bp"])), drew, {"table": TS.table_summary(t), "trees": len(combs)})
+        for c in combs:
+            after = TS.dump_real(F.get_tree(c))
+            if after != before[c]:
+                k = next((i for i, (a, b) in enumerate(zip(before[c], after)) if a != b), 0)
+                ctx.oracle_fail(f"harvesting changed the tree of columns {c}: node line {k} was {before[c][k][:160]!r}, is now {after[k][:160]!r}",
+                                {"table": TS.table_summary(t), "comb": c, "cols": t["cols"] if t["n"] <= 20 else "..."}, "tree-changed-by-harvest")
+                break
+
+
 def run(ctx, built):
+    stream_after_harvest(ctx, ctx.scale(12, 150))
     TS.stream_tree(ctx, built, ctx.scale(25, 400), oracle(ctx), max_rows=ctx.scale(160, 400))
     TS.stream_tree(ctx, built, ctx.scale(5, 60), oracle(ctx), max_rows=ctx.scale(250, 1500), params="default", name="S-tree-default")
 
@@ -140,4 +176,5 @@ def run(ctx, built):
 def search(ctx, seeds):
     sub = Ctx(ctx.pid, "quick", ctx.seed + 49979687)
     TS.stream_tree(sub, False, 60, oracle(sub))
+    stream_after_harvest(sub, 40)
     ctx.oracle_failures += sub.oracle_failures
